@@ -111,6 +111,16 @@ func redirectSel(files []*file, pkg, name, newName string) {
 			id, ok := s.X.(*ast.Ident)
 			if ok && id.Name == pkg && s.Sel.Name == name {
 				f.replace(s, newName)
+				keep := "var _ = " + pkg + "." + name + " // keeps the import used after redirection"
+				dup := false
+				for _, t := range f.tail {
+					if t == keep {
+						dup = true
+					}
+				}
+				if !dup {
+					f.tail = append(f.tail, keep)
+				}
 			}
 			return true
 		})
@@ -234,6 +244,65 @@ func extractTail(files []*file, recv, fn, lit, header, pre, fallback string) {
 	}
 }
 
+// redirectIdentCall rewrites calls name(...) to newName(...).
+func redirectIdentCall(files []*file, name, newName string) {
+	for _, f := range files {
+		ast.Inspect(f.ast, func(n ast.Node) bool {
+			c, ok := n.(*ast.CallExpr)
+			if !ok {
+				return true
+			}
+			if id, ok := c.Fun.(*ast.Ident); ok && id.Name == name {
+				f.replace(id, newName)
+			}
+			return true
+		})
+	}
+}
+
+// redirectChain rewrites calls a.b.c() (no args) to newName().
+func redirectChain(files []*file, a, b, c3, newName string) {
+	for _, f := range files {
+		ast.Inspect(f.ast, func(n ast.Node) bool {
+			c, ok := n.(*ast.CallExpr)
+			if !ok || len(c.Args) != 0 {
+				return true
+			}
+			s, ok := c.Fun.(*ast.SelectorExpr)
+			if !ok || s.Sel.Name != c3 {
+				return true
+			}
+			in, ok := s.X.(*ast.SelectorExpr)
+			if !ok || in.Sel.Name != b {
+				return true
+			}
+			if id, ok := in.X.(*ast.Ident); ok && id.Name == a {
+				f.replace(c, newName+"()")
+			}
+			return true
+		})
+	}
+}
+
+// goToCall rewrites `go func() {...}()` to fn(func() {...}).
+func goToCall(files []*file, fn string) {
+	for _, f := range files {
+		ast.Inspect(f.ast, func(n ast.Node) bool {
+			g, ok := n.(*ast.GoStmt)
+			if !ok || len(g.Call.Args) != 0 {
+				return true
+			}
+			fl, ok := g.Call.Fun.(*ast.FuncLit)
+			if !ok {
+				return true
+			}
+			f.edits = append(f.edits, edit{f.off(g.Pos()), f.off(fl.Pos()), fn + "("})
+			f.edits = append(f.edits, edit{f.off(fl.End()), f.off(g.End()), ")"})
+			return true
+		})
+	}
+}
+
 func main() {
 	if len(os.Args) < 2 {
 		fmt.Fprintln(os.Stderr, "usage: seamgen <scratch-repo-copy>")
@@ -267,7 +336,30 @@ func main() {
 		"",
 		"\treturn fmt.Errorf(\"verif: Init anchor missing\")")
 
-	for _, fs := range [][]*file{us, ct} {
+	// --- pkg/forkexec: stub-kernel seam (world S2 build only: that binary never forks for real)
+	var fe []*file
+	if len(os.Args) > 2 && os.Args[2] == "s2" {
+		fe = load(filepath.Join(root, "pkg/forkexec"))
+	}
+	redirectSel(fe, "syscall", "RawSyscall", "vkRawSyscall")
+	redirectSel(fe, "syscall", "RawSyscall6", "vkRawSyscall6")
+	redirectSel(fe, "syscall", "Syscall", "vkSyscall")
+	redirectSel(fe, "vfork", "RawVforkSyscall", "vkVfork")
+	redirectSel(fe, "syscall", "Socketpair", "vkSocketpair")
+	redirectSel(fe, "unix", "Close", "vkClose")
+	redirectSel(fe, "unix", "Open", "vkOpen")
+	redirectSel(fe, "unix", "Write", "vkWrite")
+	redirectSel(fe, "syscall", "Kill", "vkKill")
+	redirectSel(fe, "syscall", "Wait4", "vkWait4")
+	redirectChain(fe, "syscall", "ForkLock", "Lock", "vkForkLock")
+	redirectChain(fe, "syscall", "ForkLock", "Unlock", "vkForkUnlock")
+	redirectIdentCall(fe, "beforeFork", "vkBeforeFork")
+	redirectIdentCall(fe, "afterFork", "vkAfterFork")
+	redirectIdentCall(fe, "afterForkInChild", "vkAfterForkInChild")
+	redirectIdentCall(fe, "forkAndExecInChild", "vkForkAndExec")
+	goToCall(fe, "vkGo")
+
+	for _, fs := range [][]*file{us, ct, fe} {
 		for _, f := range fs {
 			if err := f.flush(); err != nil {
 				fmt.Fprintln(os.Stderr, "seamgen:", err)
